@@ -324,6 +324,12 @@ def vertexIndex (name : String) : Option Nat :=
 `gen|V|E or -|u|complete|exit class|edges`, `convert|u|input|exit class|output`, `colors|k|input|exit class|output` -/
 def handleC18 (fields : List String) : Verdict :=
   match fields with
+  | ["gen", _, _, _, _, "ok", "UNREADABLE"] =>
+    { modelOk := false, modelOut := "an edge list", oracle := some "the output is not an edge list of the requested format" }
+  | ["convert", _, _, "ok", "UNREADABLE"] =>
+    { modelOk := false, modelOut := "an edge list", oracle := some "the --convert output is not an edge list" }
+  | ["colors", _, _, "ok", "UNREADABLE"] =>
+    { modelOk := false, modelOut := "an edge list", oracle := some "the --colors output is not an edge list" }
   | ["gen", v, e, u, complete, cls, edges] =>
     match v.toNat?, parsePairs edges with
     | some v, some es =>
